@@ -334,3 +334,71 @@ Proof.
   - apply Forall_forall. intros b Hb. apply repeat_spec in Hb. exact Hb.
   - rewrite w32_mod. apply N.mod_lt. lia.
 Qed.
+
+(* ---------- facts about histories used by the concurrency corollaries (Conc/BloomConc.v) ---------- *)
+Definition is_reset (o : op) : bool := match o with OReload _ | OUnload => true | _ => false end.
+Definition no_reset (ops : list op) : Prop := Forall (fun o => is_reset o = false) ops.
+
+Lemma final_app f a b : final f (a ++ b) = final (final f a) b.
+Proof.
+  revert f. induction a as [|o a IH]; intros f; [reflexivity|].
+  change ((o :: a) ++ b) with (o :: (a ++ b)). rewrite !run_cons. apply IH.
+Qed.
+
+Lemma no_reset_reloads_ok ops : no_reset ops -> reloads_ok ops.
+Proof.
+  intros H. unfold reloads_ok. eapply Forall_impl; [|exact H]. intros o Ho. destruct o as [| | | | |[m|]| |]; try exact I; discriminate.
+Qed.
+
+Lemma step_no_reset_loaded f o : is_reset o = false -> is_loaded (fst (step f o)) = is_loaded f.
+Proof. destruct o; try discriminate; intros _; cbn [step fst]; try reflexivity; unfold add_outpoint; apply add_is_loaded. Qed.
+
+Lemma no_reset_is_loaded ops : forall f, no_reset ops -> is_loaded (final f ops) = is_loaded f.
+Proof.
+  induction ops as [|o t IH]; intros f H; [reflexivity|]. inversion H; subst.
+  rewrite run_cons, IH by assumption. apply step_no_reset_loaded. assumption.
+Qed.
+
+Lemma live_items_no_reset ops : forall acc x, no_reset ops ->
+  (In x (live_items acc ops) <-> In x acc \/ exists o, In o ops /\ item_of o = Some x).
+Proof.
+  induction ops as [|o t IH]; intros acc x H.
+  - cbn [live_items]. split; [auto|]. intros [H1|(o & [] & _)]. exact H1.
+  - inversion H as [|o' t' Ho Ht]; subst.
+    assert (E : live_items acc (o :: t) = match item_of o with Some d => live_items (d :: acc) t | None => live_items acc t end).
+    { destruct o; try discriminate; reflexivity. }
+    rewrite E. destruct (item_of o) as [d|] eqn:Ei; rewrite IH by exact Ht; split.
+    + intros [[<-|Ha]|(o1 & Ho1 & Hi)]; [right; exists o; split; [left; reflexivity|exact Ei]|left; exact Ha|right; exists o1; split; [right; exact Ho1|exact Hi]].
+    + intros [Ha|(o1 & [<-|Ho1] & Hi)]; [left; right; exact Ha|left; left; congruence|right; exists o1; split; assumption].
+    + intros [Ha|(o1 & Ho1 & Hi)]; [left; exact Ha|right; exists o1; split; [right; exact Ho1|exact Hi]].
+    + intros [Ha|(o1 & [<-|Ho1] & Hi)]; [left; exact Ha|congruence|right; exists o1; split; assumption].
+Qed.
+
+(* after any reset-free history from a loaded filter, everything inserted matches *)
+Theorem inserted_items_match f ops o x :
+  len_ok f -> is_loaded f = true -> no_reset ops -> In o ops -> item_of o = Some x -> matches (final f ops) x = true.
+Proof.
+  intros Hok Hl Hn Ho Hi. apply history_no_false_negative; try assumption.
+  - apply no_reset_reloads_ok. exact Hn.
+  - apply live_items_no_reset; [exact Hn|]. right. exists o. split; assumption.
+  - rewrite no_reset_is_loaded by exact Hn. exact Hl.
+Qed.
+
+Lemma final_len_ok ops : forall f, len_ok f -> reloads_ok ops -> len_ok (final f ops).
+Proof. intros f H1 H2. destruct (history_invariant ops f [] H1 H2) as [H _]; [intros _ y []|exact H]. Qed.
+
+(* read your completed insert, in the serial order: a Matches(x) that comes after an insertion of x, with no
+   Reload/Unload in between, on a filter that was loaded when x went in, answers true *)
+Theorem read_your_insert f pre oa mid x :
+  len_ok f -> reloads_ok pre -> is_loaded (final f pre) = true -> item_of oa = Some x -> no_reset mid ->
+  snd (step (final f (pre ++ oa :: mid)) (OMatches x)) = true.
+Proof.
+  intros Hok Hr Hl Hi Hn. cbn [step snd]. rewrite final_app.
+  assert (Hoa : is_reset oa = false) by (destruct oa; try discriminate; reflexivity).
+  apply (inserted_items_match (final f pre) (oa :: mid) oa x).
+  - apply final_len_ok; assumption.
+  - exact Hl.
+  - constructor; assumption.
+  - left. reflexivity.
+  - exact Hi.
+Qed.
